@@ -252,3 +252,67 @@ for cname, circ in OPT_CIRCUITS.items():
             return f
         PROOFS.append(Proof(["C03", "C09"], PU + ":optimize_circuit", mk(), name=f"optimize_circuit/{cname}/{'shared-tail' if share else 'free'}",
                             uses=[OPS + ":Gate.merge"], max_paths=400))
+
+
+# ---------------------------------------------------------------------------------------------
+# optimize_circuit against ABSTRACT operations (modular: only the contract of merge is known).
+# merge is documented as "self.merge(other) is the operation equivalent to applying self, then other": the
+# optimiser must therefore call EARLIER.merge(LATER), keep the result at the position of the pair, and fold
+# longer runs left to right.  The stub's merge builds the free (non-commutative) product, so any other call
+# order, a lost factor or a moved result changes the word.  Order-sensitive real merges (two preparations, two
+# single-mode GaussianTransforms) are covered by this contract.
+# ---------------------------------------------------------------------------------------------
+class AbstractOp:
+    """operation with ns = 1 whose merge is the free product of words"""
+    ns = 1
+
+    def __init__(self, word, refuse=()):
+        self.word, self.refuse = tuple(word), refuse
+        self.p = []
+        self.dagger = False
+        self.measurement_deps = set()
+
+    def merge(self, other):
+        ops_mod = AbstractOp.ops_mod
+        if not isinstance(other, AbstractOp) or (self.word[-1], other.word[0]) in self.refuse:
+            raise ops_mod.MergeFailure("abstract refusal")
+        return AbstractOp(self.word + other.word, self.refuse)
+
+    def __str__(self):
+        return "".join(self.word)
+
+
+ABSTRACT_CASES = {
+    "a-b": (["a", "b"], [0, 0], ()),
+    "a-b-c": (["a", "b", "c"], [0, 0, 0], ()),
+    "a-b-c-d": (["a", "b", "c", "d"], [0, 0, 0, 0], ()),
+    "a0-x1-b0": (["a", "x", "b"], [0, 1, 0], ()),
+    "a-b-refused-c": (["a", "b", "c"], [0, 0, 0], (("b", "c"),)),
+    "a-refused-b-c": (["a", "b", "c"], [0, 0, 0], (("a", "b"),)),
+    "two-wires": (["a", "x", "b", "y"], [0, 1, 0, 1], ()),
+}
+
+
+@proof("C03", PU + ":optimize_circuit", name="optimize_circuit/abstract-noncommutative-merge")
+def _optimize_abstract(h):
+    ops, pu = h.module(OPS), h.module(PU)
+    AbstractOp.ops_mod = ops
+    names = sorted(ABSTRACT_CASES)
+    letters, wires, refuse = ABSTRACT_CASES[names[h.eng.choose(len(names), "case")]]
+    q = [pu.RegRef(k) for k in range(max(wires) + 1)]
+    seq = [pu.Command(AbstractOp([l], refuse), [q[w]]) for l, w in zip(letters, wires)]
+    out = h.call(pu.optimize_circuit, list(seq))
+    h.ensure("no-exception", out.returned, bounded_shape=True)
+    if not out.returned:
+        return
+    res = out.value
+    # per wire: the concatenation of the words, in order, is the word of the source (nothing lost, reordered or duplicated)
+    for w in range(len(q)):
+        src = "".join(l for l, ww in zip(letters, wires) if ww == w)
+        got = "".join(str(c.op) for c in res if c.reg[0].ind == w)
+        h.ensure(f"wire{w}.same-word-in-order", got == src, bounded_shape=True)
+    # maximal merging: two neighbours on a wire are only left unmerged if merge refused them
+    for w in range(len(q)):
+        on = [c.op for c in res if c.reg[0].ind == w]
+        h.ensure(f"wire{w}.neighbours-left-only-when-refused", all((a.word[-1], b.word[0]) in refuse for a, b in zip(on, on[1:])), bounded_shape=True)
+    h.ensure("input-operations-untouched", all(c.op.word == (l,) for c, l in zip(seq, letters)), bounded_shape=True)
